@@ -70,7 +70,11 @@ def _q(v):
 
 
 def lits(carrier, arr):
-    return '[' + '; '.join(lit(carrier, v) for v in np.asarray(arr).ravel().tolist()) + ']'
+    vals = np.asarray(arr).ravel().tolist()
+    if len(vals) > 3000:       # long literals (non-periodic output of a broken implementation): avoid deep parse trees
+        return '(' + ' ++ '.join('[' + '; '.join(lit(carrier, v) for v in vals[k:k + 1500]) + ']'
+                                 for k in range(0, len(vals), 1500)) + ')'
+    return '[' + '; '.join(lit(carrier, v) for v in vals) + ']'
 
 
 def pyscalar(carrier, v):
